@@ -192,6 +192,9 @@ class MPS:
             u, s, v = np.linalg.svd(v.reshape((Dleft*d, d**(nsites-i-1))), full_matrices=False)
             # truncate small singular values
             idx = retained_bond_indices(s, tol)
+            if len(idx) == 0:
+                # zero vector: retain a (zero) singular value for a virtual bond of dimension 1
+                idx = np.array([0])
             u = u[:, idx]
             v = v[idx, :]
             s = s[idx]
